@@ -77,7 +77,7 @@ def scenario(rng, ident, n_out, n_in, order_out, order_in, tier):
     nt = 1 if (n_out >= 2 and list(order_out) != sorted(order_out)) or (n_in >= 2 and list(order_in) != sorted(order_in)) else 0
     extra = "nt=%d quiescent=1 wef=1 family=mix expect=%s" % (nt, ",".join(exp))
     if expinv:
-        extra += " expectinv=" + ",".join(expinv)
+        extra += " expectinv=" + "|".join(expinv)
     if exprep:
         extra += " expectreply=" + ",".join(exprep)
     return scn.line("scn", ident, s, extra=extra)
@@ -141,7 +141,7 @@ def late_registration(rng, ident):
             inv.append("%d~%s~-" % (710 + i, T(scn.arg(710 + i))))
         hid += 1
     s += ["settle"]
-    return scn.line("scn", ident, s, extra="nt=1 quiescent=1 family=late-registration latemethods=6c6174652e6d expectinv=%s" % ",".join(inv))
+    return scn.line("scn", ident, s, extra="nt=1 quiescent=1 family=late-registration latemethods=6c6174652e6d expectinv=%s" % "|".join(inv))
 
 
 def sibling_tags(rng, ident):
